@@ -1077,7 +1077,16 @@ class Driver(object):
         if snap:
             return snap()
         if hasattr(inner, 'get_all_recording_ids'):
-            return [(i, inner._recordings.get(i)) for i in inner.get_all_recording_ids()]
+            store = getattr(inner, '_recordings', None)
+            if hasattr(store, 'get'):
+                return [(i, store.get(i)) for i in inner.get_all_recording_ids()]
+            # (no such attribute: the same through the public interface)
+            res = []
+            for i in inner.get_all_recording_ids():
+                r = inner.get_recording(i)
+                res.append((i, sorted((repr(k), repr(r.get_data(k))) for k in r.get_all_keys()),
+                            sorted((repr(k), repr(v)) for k, v in r.get_metadata().items())))
+            return res
         if hasattr(inner, 'directory'):
             import os
             res = []
